@@ -152,6 +152,29 @@ def run(ctx):
                 tid += 1
                 all_runs.append((tid, rr, {"scenario": f"blowup(reuse_lu={reuse})", "solver": sn, "cwu": cwu,
                                            "faults": {"rhs": "not finite after 2.5 steps"}}))
+    # 5. failures that need no injection, watched by independent observers of the helpers (site "unmet"): a static problem without equilibrium
+    #    solved with the pseudo-inverse linear solvers, and a fast-spinning body whose implicit mid-point equation is no contraction
+    from cardillo.math.fsolve import pinv_solve, svd_solve
+    from cardillo.solver import SolverOptions, Newton, DualStormerVerlet
+    n_natural = 0
+    for cwu in (False, True):
+        for lname, lsolve in (("pinv_solve", pinv_solve), ("svd_solve", lambda A, b: svd_solve(A, b, verbose=False))):
+            for net in (True, False):
+                system = S.sys_free_spring_pair(net=net)
+                mk_ = lambda system=system, lsolve=lsolve, cwu=cwu: Newton(system, n_load_steps=3, verbose=False, options=SolverOptions(linear_solver=lsolve, continue_with_unconverged=cwu))
+                rr = runs.record_run(mk_, system, "Newton", cwu, 4, observe=True)
+                tid += 1; n_natural += 1
+                all_runs.append((tid, rr, {"scenario": f"free spring pair ({'net load: no equilibrium' if net else 'self-equilibrated load'}), linear_solver={lname}", "solver": "Newton", "cwu": cwu,
+                                           "faults": {"natural": "no injection"} if net else {}}))
+        for omega, kw, theta in (((30.0, 30.0, 30.0), {}, (0.7, 1.3, 2.1)), ((6.0, 5.0, 6.0), dict(fixed_point_max_iter=8, fixed_point_atol=1e-10, fixed_point_rtol=1e-10), (0.7, 1.3, 2.1)),
+                                 ((6.0, 5.0, 6.0), dict(fixed_point_max_iter=8, fixed_point_atol=1e-10, fixed_point_rtol=1e-10), (1.0, 1.0, 1.0)),     # no gyroscopic term: only the kinematic loop is hard
+                                 ((30.0, 30.0, 30.0), dict(fixed_point_max_iter=50), (1.0, 1.0, 1.0)), ((0.3, 0.2, 0.1), {}, (0.7, 1.3, 2.1))):
+            system = S.sys_spinning_body(omega=omega, t0=T0, theta=theta)
+            mk_ = lambda system=system, cwu=cwu, kw=kw: DualStormerVerlet(system, system.t0 + 3 * 0.1, 0.1, options=SolverOptions(continue_with_unconverged=cwu, **kw))
+            rr = runs.record_run(mk_, system, "DualStormerVerlet", cwu, 3, observe=True)
+            tid += 1; n_natural += 1
+            all_runs.append((tid, rr, {"scenario": f"spinning body omega={omega} inertia={theta} dt=0.1 {kw}", "solver": "DualStormerVerlet", "cwu": cwu,
+                                       "faults": {"natural": "no injection"} if omega[0] > 1 else {}}))
     verdicts, rt = runs.validate_traces(ctx, [(t, r_) for t, r_, _ in all_runs])
     nbad = 0
     for t, r_, d in all_runs:
@@ -163,7 +186,7 @@ def run(ctx):
             ctx.violation(key, f"{d['solver']} on '{d['scenario']}' (continue_with_unconverged={d['cwu']}, injected {d['faults']}): {clause}; "
                           f"outcome {r_.events[-1]}; warnings {r_.warn_texts[:3]}",
                           {"description": d, "events": r_.events, "warnings": r_.warn_texts})
-    ctx.log(f"[C21] {len(all_runs)} recorded runs ({n_injected} with injected faults) validated by TLC: {nbad} rejected")
+    ctx.log(f"[C21] {len(all_runs)} recorded runs ({n_injected} with injected faults, {n_natural} scenarios that fail without injection, watched by independent observers) validated by TLC: {nbad} rejected")
     samples = [{"desc": d, "events": [(e["e"], e.get("site"), e.get("ok")) for e in r_.events][:16]} for _, r_, d in all_runs if d["faults"]][:3]
     nontrivial = len({(d["solver"], d["scenario"], d["cwu"], str(d["faults"])) for _, _, d in all_runs if d["faults"]})
     per_solver = {}
@@ -180,7 +203,8 @@ def run(ctx):
     ctx.assumptions = ["runs of 3 steps (4 load steps) of 1-2 body systems; sites beyond step 3 behave like those before",
                        "a warning counts for the step in whose window it is emitted; warnings not raised from cardillo code and a fixed list of unrelated ones are ignored",
                        "'names the time': a number in the warning text equals the time of the last accepted step",
-                       "DualStormerVerlet has no gated sites (its helpers raise by themselves, see C22)"]
+                       "DualStormerVerlet has no gated sites (its helpers raise by themselves, see C22); its helpers and fsolve are watched by observers that re-evaluate the helper's criterion at the "
+                       "returned point (site 'unmet'; the fixed-point helpers with a slack factor of 10, a failed loop misses by orders of magnitude)"]
 
 
 def _short(clause):
